@@ -236,10 +236,15 @@ DoGenCerts(st, q) ==
 (* q = [k, nid, order, src, which, k2, e2, n2, ostate]                      *)
 (*   src/which: the payload is sealed with the node-side key of record src *)
 (*              ("cur") or with the key that record src remembers as its   *)
-(*              previous one ("prev"); src = "rand": unrelated key         *)
+(*              previous one ("prev"); src = "rand": unrelated key;        *)
+(*              "gone": with the key shared with the record src held       *)
+(*              BEFORE it was removed or replaced - the driver logs that   *)
+(*              key's generation and encryption key as q.gsrv / q.genc     *)
+(*              (0 / none when src never had another record)               *)
 (***************************************************************************)
 KeyTriple(st, src, which) ==
-  IF src \notin CertKeys \/ ~st.nodes[src].present THEN <<0, NONE, NONE>>
+  IF which = "gone" THEN <<0, NONE, NONE>>       \* (see KeyTripleQ)
+  ELSE IF src \notin CertKeys \/ ~st.nodes[src].present THEN <<0, NONE, NONE>>
   ELSE IF which = "cur" THEN (IF st.nodes[src].kt = "ed" THEN <<st.nodes[src].srv, st.nodes[src].enc, src>> ELSE <<0, NONE, NONE>>)
   ELSE IF st.nodes[src].prevk = NONE THEN <<0, NONE, NONE>>
   ELSE <<st.nodes[src].prevsrv, st.nodes[src].prevenc, st.nodes[src].prevk>>
@@ -254,8 +259,9 @@ RotLookup(st, q) ==
   THEN SelectSeq(q.order, LAMBDA c : st.nodes[c].present /\ st.nodes[c].nid = q.nid)
   ELSE IF st.nodes[q.k].present THEN <<q.k>> ELSE <<>>
 
+KeyTripleQ(st, q) == IF q.which = "gone" /\ "gsrv" \in DOMAIN q THEN <<q.gsrv, q.genc, q.src>> ELSE KeyTriple(st, q.src, q.which)
 RotOpeners(st, q) ==
-  LET ls == RotLookup(st, q) tr == KeyTriple(st, q.src, q.which)
+  LET ls == RotLookup(st, q) tr == KeyTripleQ(st, q)
   IN SelectSeq(ls, LAMBDA c : RecOpens(st, c, tr))
 
 \* res "rotated" carries the record that authenticated the request
@@ -304,11 +310,16 @@ Apply(st, o) ==
 NoWrap == [ww |-> NONE, wk |-> NONE, wn |-> NONE]
 NoRewrap == [rby |-> NONE, rwith |-> NONE, rk |-> NONE, rn |-> NONE]
 
+\* (optional field `back`, like `skipst`: the request's validity window began three days ago - built early or backdated,
+\* still well inside its window; must not matter, in particular not for the age of a token)
 \* selfinfo: the signed bundle itself carries a pre-populated (self-asserted) registration-flow info naming the
 \* request's own key and nonce - a field the server is meant to fill in only after unsealing; it must not matter
 FetchCore == [op : {"Fetch"}, k : CertKeys, e : EncKeys, n : AllNonces, life : Lives, selfinfo : BOOLEAN]
 \* "SW": the info is sealed with the server's STORAGE wrapper (which is not a registration wrapper, whatever else is configured)
-Wraps == {NoWrap} \cup [ww : {"W1", "W2", "SW"}, wk : CertKeys, wn : AllNonces \ {"tf", "tg"}]
+\* wk / wn = "absent": the sealed info lacks the certificate key / the nonce altogether (a blob sealed with the right
+\* wrapper that binds nothing): it names no key and no nonce, so it matches none
+PartialWraps == {w \in [ww : {"W1"}, wk : CertKeys \cup {"absent"}, wn : Nonces \cup {"absent"}] : w.wk = "absent" \/ w.wn = "absent"}
+Wraps == {NoWrap} \cup [ww : {"W1", "W2", "SW"}, wk : CertKeys, wn : AllNonces \ {"tf", "tg"}] \cup PartialWraps
 Rewraps == {NoRewrap} \cup [rby : CertKeys, rwith : CertKeys \cup {"rand"}, rk : CertKeys, rn : AllNonces \ {"tf", "tg"}]
 
 Merge(a, b) == [x \in (DOMAIN a) \cup (DOMAIN b) |-> IF x \in DOMAIN a THEN a[x] ELSE b[x]]
